@@ -15,6 +15,29 @@ def isel_res(res, pos):
     return res.isel({k: v for k, v in pos.items() if k in res.dims})
 
 
+def norm(op, can, da):
+    """Canonical result with the comparisons the property leaves open removed: order of equal-Hs partitions, angles of
+    (near-)zero moment vectors, tied peak directions; tiny Stokes-drift components are compared against the drift speed."""
+    out = []
+    lead = [d for d in da.dims if d not in ("freq", "dir")]
+    for c in can:
+        if op in opcat.PART_HEADS:
+            c = opcat.sort_parts(c, opcat.PART_HEADS[op])
+        nm = c["name"].split(":")[-1]
+        if nm in ("dm", "dp", "dpm") and "freq" not in c["dims"]:
+            c = opcat.mask_positions(c, lead, opcat.weak_angle_positions(nm, da))
+        out.append(c)
+    return out
+
+
+def abs_tol(op, da):
+    if op in ("uss_x", "uss_y"):
+        return 1e-9 * float(da.spec.uss().max())
+    if op == "momd1":
+        return 1e-9 * float(da.spec.oned().max())
+    return 0.0
+
+
 def make_case(args):
     seed, icase = args
     rng = case_rng("C06", seed, icase)
@@ -81,7 +104,9 @@ def make_case(args):
         for pos in sel:
             try:
                 single = C[op](da.isel(pos), {k: v.isel(pos) for k, v in aux.items()})
-                d = opcat.compare(opcat.canon(isel_res(batched, pos)), opcat.canon(single), rel=rel)
+                one = da.isel(pos)
+                d = opcat.compare(norm(op, opcat.canon(isel_res(batched, pos)), one), norm(op, opcat.canon(single), one), rel=rel,
+                                  abs_=abs_tol(op, one))
             except Exception as e:
                 d = f"single-spectrum call raised {type(e).__name__}: {str(e)[:160]}"
             if d:
